@@ -31,10 +31,13 @@ for pid in ids:
         "level_note": "Trusted: Lean 4.33 kernel (axioms propext, Classical.choice, Quot.sound only); the Go-subset->Lean translator "
                       "(tools/cmd/extract); the harness (generator, go/types fact extraction, summariser, comparison); Go toolchain as "
                       "oracle/judge. The hand-written model of pkg/parser, pkg/option, pkg/builder, pkg/util, pkg/config, pkg/runner is "
-                      "tied to the code by differential runs against the built CLI on every check, not verified line by line. "
+                      "tied to the code three ways on every check, not verified line by line: decision skeletons of 31 functions "
+                      "regenerated from the Go source and proved equal to the model's functions (Bridge/Dec), fingerprints of the "
+                      "modelled functions, and differential runs against the built CLI. "
                       + "; ".join(cfg.get("assumptions", [])),
-        "technique": "machine-checked proof in Lean 4 over an executable model; model regenerated (renderers, tables) or tied by "
-                     "differential correspondence with the built CLI on every run",
+        "technique": "machine-checked proof in Lean 4 over an executable model; model parts regenerated on every run (renderers, node "
+                     "expressions, tables, decision skeletons) and tied by Bridge theorems, the rest tied by differential "
+                     "correspondence with the built CLI on every run",
     })
 
 manifest = {
